@@ -114,6 +114,26 @@ def run(ctx):
     # a few documents with the language's nominal (literal) root: the shape of finding D27
     lit = [d for d in c06_gen.documents(tj, common.Rng(ctx.seed, 4), quick) if d[0] in (2401, 2402) and d[1] in ("tags", "text")][:6]
     srcs += [("literal-root:%d" % l, x) for l, k, x, _ in lit]
+    # typed values at their field boundaries, on corpus documents: Wireless-Village integers around every octet-count
+    # boundary (0, 2^8, 2^16, 2^20, 2^24, 2^32-1), and binary-flagged ActiveSync content whose bytes are all white space
+    # (must survive with keep-ws off): the text of the element is replaced in place
+    import re as _re
+    tv = []
+    INTS = [0, 1, 255, 256, 65535, 65536, 100000, 1048575, 1048576, 16777215, 16777216, 2147483648, 4294967295]
+    for f in files:
+        x = open(f, "rb").read()
+        rel = os.path.relpath(f, os.path.join(common.REPO, "test", "tools"))
+        if b"WV-CSP" in x and len([t for t in tv if t[0].startswith("wv-int")]) < (26 if quick else 130):
+            ms = list(_re.finditer(rb"<(Code|ContentSize|Validity|TimeToLive|KeepAliveTime|SearchID|MessageCount|SearchLimit|SearchIndex|SearchFindings)>(\d+)</\1>", x))[:2]
+            for m in ms:
+                for v in INTS:
+                    tv.append(("wv-int:%s:%s=%d" % (rel, m.group(1).decode(), v), x[:m.start(2)] + str(v).encode() + x[m.end(2):]))
+        if b"AirSync" in x or b"ActiveSync" in x:
+            ms = list(_re.finditer(rb"<(MIME|ConversationId|ConversationIndex)>([A-Za-z0-9+/=\s]+)</\1>", x))[:1]
+            for m in ms:
+                for pl in (b"IA==", b"DQo=", b"CSAK", b"Cgo=", b"ICBhICA=", b"DQphDQo="):
+                    tv.append(("binary-ws:%s:%s=%s" % (rel, m.group(1).decode(), pl.decode()), x[:m.start(2)] + pl + x[m.end(2):]))
+    srcs += tv
     if getattr(ctx, "replay", None):
         rp = json.load(open(ctx.replay))
         if "source_xml_hex" in rp:
